@@ -47,6 +47,9 @@ pub enum Px {
     /// `kib` KiB (100..1500) of very redundant content: ratios of several thousand to one and
     /// inputs beyond the 64 KiB / 128 KiB / 1 MiB switches inside the codecs
     Big { content: Content, kib: u16, seed: u64 },
+    /// two regions with different statistics (e.g. a compressible first KiB followed by noise):
+    /// decisions taken from a prefix or a sample of the payload do not hold for the rest
+    Two { first: Payload, second: Payload },
 }
 
 #[derive(Clone, Copy, Debug, PartialEq, Eq, Serialize, Deserialize)]
@@ -183,6 +186,11 @@ impl Px {
                     _ => b,
                 }
             }
+            Px::Two { first, second } => {
+                let mut v = first.bytes();
+                v.extend_from_slice(&second.bytes());
+                v
+            }
             Px::Big { content, kib, seed } => expand(*content, *kib as usize * 1024 + (*seed % 7) as usize, *seed),
             Px::Repeat { unit, dist, fill, seed, tail } => {
                 let u = unit.bytes();
@@ -205,6 +213,7 @@ impl Px {
             Px::Plain(p) => p.class(),
             Px::Packed(_) => "Packed".into(),
             Px::Big { .. } => "Big".into(),
+            Px::Two { .. } => "TwoRegions".into(),
             Px::Repeat { dist, .. } => {
                 if *dist >= 60_000 {
                     "Repeat@64K".into()
@@ -357,12 +366,14 @@ fn px(max: usize, big_ok: bool) -> BoxedStrategy<Px> {
         .prop_map(|(unit, dist, fill, seed, tail)| Px::Repeat { unit, dist, fill, seed, tail });
     let plain = payload(size_around(BLOCKS, max), 48).prop_map(Px::Plain);
     let packed = payload(size_around(BLOCKS, max), 48).prop_map(Px::Packed);
+    let region = |lens: &'static [usize]| payload(size_around(lens, max.max(64)), 16);
+    let two = (region(&[300, 1024, 1500]), region(&[64, 600, 2048])).prop_map(|(first, second)| Px::Two { first, second });
     if big_ok {
         let big = (proptest::sample::select(vec![Content::Constant, Content::Periodic, Content::Runs, Content::TwoSymbol, Content::Text]), prop_oneof![Just(128u16), Just(1024u16), 100u16..1500], any::<u64>())
             .prop_map(|(content, kib, seed)| Px::Big { content, kib, seed });
-        prop_oneof![24 => plain, 4 => packed, 4 => small_repeat, 1 => big_repeat, 1 => big].boxed()
+        prop_oneof![24 => plain, 4 => packed, 4 => small_repeat, 1 => big_repeat, 1 => big, 3 => two].boxed()
     } else {
-        prop_oneof![24 => plain, 4 => packed, 4 => small_repeat].boxed()
+        prop_oneof![24 => plain, 4 => packed, 4 => small_repeat, 3 => two].boxed()
     }
 }
 
